@@ -4,6 +4,7 @@
   `Float32` appears here and nowhere in the proved model.
 -/
 import AisVerif.Model.Sentence
+import AisVerif.Model.Cli
 
 open AisVerif
 
@@ -154,6 +155,11 @@ def handle (s : St) (line : String) : St × String :=
           | .err _ => "err"
           | .panic _ => "panic")
       | none, none => (s, "bad-op")
+    | none => (s, "bad-op")
+  | ["S", hex] =>
+    match bytesOfHex hex with
+    | some bs => (s, "ok " ++ toString (splitNewline bs).length ++ " " ++
+        String.intercalate "," ((splitNewline bs).map fun l => if l.isEmpty then "-" else hexOfBytes l))
     | none => (s, "bad-op")
   | ["N", k] =>
     match k.toNat? with
